@@ -78,7 +78,7 @@ pub fn explore(ctx: &Ctx, shard: usize, n: usize) -> Report {
     { let by_text: std::collections::HashMap<&str, Segment> = segs.iter().map(|(t, w)| (t.as_str(), seg_of(w))).collect();
       for (t, w) in &segs { let mut cs: Vec<char> = t.chars().collect(); if cs.len() < 2 { continue } cs.pop(); let shorter: String = cs.iter().collect(); if let Some(b) = by_text.get(shorter.as_str()) { if *b != seg_of(w) { twins.push((*b, seg_of(w))); } } } }
     if shard == 0 { rep.obs("twin_pairs", twins.len() as u64); }
-    let words = drive::cases(ctx, shard, n, RULE, 0x09, 150_000, 5_000_000, |r, rep, _| {
+    let words = drive::cases(ctx, shard, n, RULE, 0x09, 150_000, 30_000_000, |r, rep, _| {
         let ns = r.range(1, 4);
         let mut sylls = Vec::new();
         let mut prev_last: Option<Segment> = None;
@@ -102,7 +102,7 @@ pub fn explore(ctx: &Ctx, shard: usize, n: usize) -> Report {
     });
     rep.merge(words);
     // public API: run's output is a fixed point of the empty rule list
-    let api = drive::cases(ctx, shard, n, RULE, 0x0909, 60_000, 2_000_000, |r, rep, _| {
+    let api = drive::cases(ctx, shard, n, RULE, 0x0909, 60_000, 10_000_000, |r, rep, _| {
         let rule = plain(&rand_rule(r, &RuleCfg::default()));
         let word = rand_word(r, &WordCfg::default());
         rep.eval(1);
